@@ -52,7 +52,74 @@ def guard_kinds(run):
 
 
 def shards(tier):
-    return list(range(16))
+    return list(range(16)) + ['grid2', 'grid3', 'grid4', 'grid8']
+
+
+def grid_literals(ws):
+    B = 8 * ws
+    vals = {1, 2, 3, 4, 7, 8, 10, 16, 64, 128, 255, 256, 257, 1000, 2 ** 15, 2 ** 16, 2 ** 23, 2 ** 24, 2 ** 31, 2 ** 32, 2 ** 63, 2 ** 64,
+            2 ** (B - 2), 2 ** (B - 1) - 1, 2 ** (B - 1), 2 ** (B - 1) + 1, 2 ** B - 2, 2 ** B - 1, 2 ** B, 2 ** B + 1, 2 ** B + 2, 3 * 2 ** (B - 1),
+            2 ** (B + 1), 2 ** (B - 8), 2 ** (B - 9)}
+    return sorted(vals)
+
+
+def grid_source(L, ws, neg):
+    """Every arithmetic / comparison operator between run-time operands (parameter, global, element, byte, compound
+    target) and the literal L (or -L), in both operand orders.  Division by a literal that is 0 in the target word is
+    left out (it faults, which is outside the property)."""
+    B = 8 * ws
+    lit = '-%d' % L if neg else '%d' % L
+    zero = L % (2 ** B) == 0
+    body = []
+    for x in ('p', 'g', 'a[1]', '(b is int)'):
+        for op in ('+', '-', '*') + (() if zero else ('/', '%')):
+            body.append('write(%s %s %s); write(\';\');' % (x, op, lit))
+            body.append('write(%s %s %s); write(\';\');' % (lit, '+' if op in '/%' else op, x))
+        for op in ('<', '<=', '>', '>=', '==', '!='):
+            body.append('if (%s %s %s) { write(\'T\'); } else { write(\'F\'); }' % (x, op, lit))
+    body.append('if (p != 0) { write(%s / p); write(\';\'); write(%s %% p); write(\';\'); }' % (lit, lit))
+    for op in ('+=', '-=', '*=') + (() if zero else ('/=', '%=')):
+        body.append('t = p; t %s %s; write(t); write(\';\');' % (op, lit))
+        body.append('a[0] = p; a[0] %s %s; write(a[0]); write(\';\');' % (op, lit))
+        body.append('c = b; c %s %s; write(c is int); write(\';\');' % (op, lit))
+    xs = [0, 1, -1, 2, 5, -7, 127, 128, 255, 256, 1000, -1000, 2 ** (B - 1) - 1, -(2 ** (B - 1)), 2 ** (B - 2), -(2 ** (B - 2)) - 1, 2 ** (B - 1) - 256]
+    calls = ''.join('  f(%d, %d);\n' % (x, x % 256) for x in xs)
+    return ('int g = 0;\nempty f(int p, byte b) {\n  g = p; int t = 0; byte c = 0; int[] a = [0, 0]; a[1] = p;\n  ' + '\n  '.join(body) +
+            '\n  writeln();\n}\nempty @is_you() {\n' + calls + '}\n')
+
+
+def check_grid(stats, L, ws, neg):
+    src = grid_source(L, ws, neg)
+    try:
+        lines = compile_lines(src, ws, S0, False)
+        lines_u = compile_lines(src, ws, S0, True)
+    except H.CompilerError as e:
+        stats.cls('grid_rejected')
+        return None
+    rc = run_lines(lines, (), budget=20_000_000)
+    stats.evaluated()
+    if rc.outcome == svm.BUDGET or set(rc.flags) & FAULT_FLAGS:
+        stats.cls('grid_checked_run_faulted_or_budget')
+        return None
+    ru = run_lines(lines_u, (), budget=20_000_000)
+    stats.cls('grid_pairs_ws%d' % ws)
+    stats.nt('grid:%d:%d:%d' % (L, ws, neg))
+    if rc.events != ru.events or rc.outcome != ru.outcome:
+        i = first_diff(rc.events, ru.events)
+        return 'operators against the literal %s%d at ws=%d: checked %s (%s) vs unchecked %s (%s), first difference at event #%d' % (
+            '-' if neg else '', L, ws, fmt_events(rc.events)[:300], rc.outcome, fmt_events(ru.events)[:300], ru.outcome, i)
+    return None
+
+
+def run_grid(ws, stats):
+    for L in grid_literals(ws):
+        for neg in (0, 1):
+            m = check_grid(stats, L, ws, neg)
+            if m:
+                stats.violation({'kind': 'grid', 'value': [L, ws, neg], 'message': m, 'signature': 'grid:%d' % ws})
+    stats.sample({'kind': 'operator grid against boundary literals', 'ws': ws, 'literals': [str(v) for v in grid_literals(ws)][:12],
+                  'source': grid_source(2 ** (8 * ws - 1), ws, 0)[:600]})
+    return stats
 
 
 def check_case(stats, case):
@@ -89,6 +156,8 @@ def check_case(stats, case):
 
 def run_shard(k, seed, tier):
     stats = Stats()
+    if isinstance(k, str):
+        return run_grid(int(k[4:]), stats)
     n = 450 if tier == 'quick' else 8000
     strat = programs(features=ALL_FEATURES, size=dict(main_stmts=12, funcs=5))
 
@@ -105,6 +174,8 @@ def run_shard(k, seed, tier):
 
 
 def replay(case):
+    if case.get('kind') == 'grid':
+        return check_grid(Stats(), *case['value'])
     prog, vals, ws = case_from_json(case)
     try:
         r = check_case(Stats(), (prog, vals, ws))
